@@ -433,6 +433,7 @@ func (e *Engine) execRange(s *State, fr *Frame, x *ssa.Range) {
 	switch mt := x.X.Type().Underlying().(type) {
 	case *types.Map:
 		s.set(fr, x, &rangeIter{isMap: true, mt: mt, m: s.term(fr, x.X)})
+		e.rangeInit(s, x, mt) // models_coord.go: per-loop ghosts (keys seen, count)
 	default:
 		s.set(fr, x, &rangeIter{str: s.term(fr, x.X), pos: IntLit(0)})
 	}
@@ -458,6 +459,7 @@ func (e *Engine) execNext(s *State, fr *Frame, x *ssa.Next) ([]*State, bool) {
 		v := s.fromTerm(e.u.Define("rangeval", vt), it.mt.Elem())
 		e.abstract("range over map: each iteration sees an arbitrary key of the domain (visit-once not modelled)")
 		_ = tt
+		e.rangeNextFacts(s, fr, x, it, okv, kt) // models_coord.go: at-most-once / all-visited facts where sound
 		s.set(fr, x, &Tuple{Vs: []Value{okv, k, v}})
 		return nil, false
 	}
